@@ -297,7 +297,8 @@ fn site_key(site: &'static str) -> &'static str {
         };
     }
     k!(
-        "zi.reset.zones", "zi.get.zones_read", "zi.get.fast_hit", "zi.get.zones_write",
+        "zi.reset.zones", "zi.get.zones_read", "zi.get.zones_read_held", "zi.get.fast_hit", "zi.get.zones_write",
+        "zi.names.get_read_held", "cc.get.zones_read_held",
         "zi.get.revalidate_ok", "zi.get.reload", "zi.get.load", "zi.new.open", "zi.new.read",
         "zi.new.stat", "zi.revalidate.stat", "zi.names.walk_new", "zi.names.get_read",
         "zi.names.get_write", "zi.names.available", "zi.names.reset", "zi.names.walk_refresh",
